@@ -42,6 +42,10 @@ func accelFamilies(thorough bool) (jobs []job) {
 		add("ANCH<=4", anch, o, anchProf, 4)
 		add("ANCH<=4", anch, o+"m", anchProf, 4)
 	}
+	altB := altBranchFamily(false)
+	add("ALTB", altB, "", profP0, 4)
+	add("ALTB", altB, "G", profP0, 4)
+	add("ALTB", altB, "i", profP0i, 3)
 	add("SEQ k<=3", seq3, "", profP0, 4)
 	add("LOOP", loopF, "", profP0, 4)
 	add("LOOK", lookF, "", profP0, 4)
@@ -73,6 +77,11 @@ func accelFamilies(thorough bool) (jobs []job) {
 		add("SEQ k<=3", seq3, "", profP0, 6)
 		add("ALT full", altFamily(true), "", profP0, 5)
 		add("ALT full", altFamily(true), "G", profP0, 5)
+		altBf := altBranchFamily(true)
+		add("ALTB full", altBf, "", profP0, 5)
+		add("ALTB full", altBf, "G", profP0, 5)
+		add("ALTB full", altBf, "R", profP0, 4)
+		add("ALTB full", altBf, "", profP2, 4)
 		add("LOOP", loopF, "", profP0, 5)
 		add("LOOP", loopF, "G", profP0, 5)
 		add("LOOP", loopF, "R", profP0, 5)
